@@ -29,8 +29,8 @@ func c05Variants(tier string, reportsBase string) []cfgVariant {
 		{Name: "ondemand", Set: map[string]any{"summarize-on-demand": true}},
 		{Name: "pf-none", Set: map[string]any{"pkg-filter": "^$"}},
 		// (pkg-filter ".*" would summarise the whole standard library from its bodies: > 20 GB and > 20 min per run;
-		// a filter that adds a few std packages to the program's own is the feasible "wider than default" point)
-		{Name: "pf-wide", Set: map[string]any{"pkg-filter": "vprog|strconv|path|unicode"}},
+		// even strconv+unicode alone exhaust 20 GB: the per-function state is instructions x values; a filter that adds a few small std packages to the program's own is the feasible "wider than default" point)
+		{Name: "pf-wide", Set: map[string]any{"pkg-filter": "vprog|^path$|^errors$|^sort$"}},
 		{Name: "pf-lib", Set: map[string]any{"pkg-filter": "vprog/lib"}},
 		{Name: "reports-all", Set: map[string]any{"report-paths": true, "report-summaries": true, "report-coverage": true, "report-no-callee-sites": true, "reports-dir": rd("all")}},
 		{Name: "coverage-filter", Set: map[string]any{"report-coverage": true, "coverage-filter": "vprog", "reports-dir": rd("cov")}},
